@@ -16,7 +16,7 @@ _NO = ['no', 'No', 'NO', 'n', 'N']
 _conf_count = [0]
 
 
-def write_conf(model_dir, aperture_dependent, logd_step=0.02, version=1, name='verif'):
+def write_conf(model_dir, aperture_dependent, logd_step=0.02, version=1, name='verif', length_subdir=0):
     """models.conf.  The yes/no value is written in every spelling the configuration reader accepts (any case,
     one-letter forms), rotating from call to call, with comment and blank lines and varying whitespace around '='"""
     _conf_count[0] += 1
@@ -27,7 +27,7 @@ def write_conf(model_dir, aperture_dependent, logd_step=0.02, version=1, name='v
         f.write('# model package written by the verification harness\n')
         f.write('name%s%s\n' % (eq, name))
         f.write('\n')
-        f.write('length_subdir%s0\n' % eq)
+        f.write('length_subdir%s%d\n' % (eq, length_subdir))
         f.write('aperture_dependent%s%s\n' % (eq, word))
         f.write('logd_step%s%r\n' % (eq, logd_step))
         if version != 1:
@@ -122,20 +122,24 @@ def make_sed(name, wav_um, flux, err, apertures_au=None, distance_kpc=1., unit=N
 
 
 def write_sed_package(model_dir, names, wav_um, flux, err, apertures_au=None, table_order=None,
-                      params=None, aperture_dependent=None, logd_step=0.02, file_names=None, unit=None):
+                      params=None, aperture_dependent=None, logd_step=0.02, file_names=None, unit=None, length_subdir=0):
     """per-file (version 1) package: seds/<name>_sed.fits + parameters.fits + models.conf.
+    length_subdir = k > 0: the SED of model <name> lives in seds/<first k characters of name>/ (the layout of the
+    published grids; `plot` builds that path from models.conf, `convolve_model_dir` finds the files by globbing).
     flux, err: (n_models, n_ap, n_wav); table_order: row order of parameters.fits (list of names);
     file_names: optional dict name -> file stem (to decouple directory-listing order from names)"""
     os.makedirs(os.path.join(model_dir, 'seds'), exist_ok=True)
     if aperture_dependent is None:
         aperture_dependent = apertures_au is not None and len(apertures_au) > 1
-    write_conf(model_dir, aperture_dependent, logd_step=logd_step, version=1)
+    write_conf(model_dir, aperture_dependent, logd_step=logd_step, version=1, length_subdir=length_subdir)
     flux = np.array(flux, dtype=float)
     err = np.array(err, dtype=float)
     for i, n in enumerate(names):
         s = make_sed(n, wav_um, flux[i], err[i], apertures_au, unit=unit)
         stem = (file_names or {}).get(n, n + '_sed')
-        s.write(os.path.join(model_dir, 'seds', stem + '.fits'), overwrite=True)
+        sub = os.path.join(model_dir, 'seds', n[:length_subdir]) if length_subdir else os.path.join(model_dir, 'seds')
+        os.makedirs(sub, exist_ok=True)
+        s.write(os.path.join(sub, stem + '.fits'), overwrite=True)
     order = list(table_order) if table_order is not None else list(names)
     cols = params or {'PAR1': [float(names.index(n)) for n in order]}
     write_parameters(model_dir, order, cols)
